@@ -7,6 +7,7 @@ it was missing / empty / relative, the value itself when it is not a string.
 oracle); `Good` says the oracle is right for the leaf calls of a run.
 -/
 import Martian.PostProcess
+import Martian.PostProcessDefs
 import Proofs.PostProcess
 import Proofs.PostProcessLeaves
 import Proofs.PostProcessDests
@@ -16,95 +17,7 @@ namespace Martian.PostProcess
 
 /-! ## the traversal with an oracle for the leaves -/
 
-def pureIdx (f : Nat → J → J) : Nat → List J → List J
-  | _, [] => []
-  | i, x :: xs => f i x :: pureIdx f (i + 1) xs
-
-abbrev PureH := String → String → J → Path → J
-
-def pureArr (h : PureH) : Nat → J → Path → J
-  | 0, v, o =>
-    match v with
-    | .arr xs => .arr (pureIdx (fun i x => h (pad (width xs.length) i) "" x o) 0 xs)
-    | _ => v
-  | k + 1, v, o =>
-    match v with
-    | .arr xs =>
-      .arr (pureIdx (fun i x =>
-        match x with
-        | .null => .null
-        | _ => pureArr h k x (o ++ [pad (width xs.length) i])) 0 xs)
-    | _ => v
-
-def pureKeys (f : String → J) : List String → List (String × J)
-  | [] => []
-  | k :: ks => (k, f k) :: pureKeys f ks
-
-def pureMap (h : PureH) (v : J) (o : Path) : J :=
-  match v with
-  | .obj kvs =>
-    .obj (pureKeys (fun k => h k "" ((lookupLast kvs k).getD .null) o)
-      (sortStrings (dedup ((kvs.map Prod.fst).filter legalName))))
-  | _ => v
-
-abbrev PureMembers := List (String × (J → Path → J))
-
-def pureMember (hs : PureMembers) (k : String) : J → Path → J :=
-  match hs with
-  | [] => fun v _ => v
-  | (k', h) :: r => if k' = k then h else pureMember r k
-
-def pureStruct (hs : PureMembers) (v : J) (o : Path) : J :=
-  match v with
-  | .obj [] => .obj []
-  | .obj kvs =>
-    .obj (pureKeys (fun k => pureMember hs k ((lookupLast kvs k).getD .null) o) (sortStrings (hs.map Prod.fst)))
-  | _ => v
-
-mutual
-/-- `handler true ps ty` with the leaf calls answered by `E` -/
-def pureHandler (E : Leaf → J) : Ty → PureH
-  | .scalar => fun _ _ v _ => v
-  | .file ext => fun id on v outs =>
-    match v with
-    | .null => .null
-    | _ => E ⟨v, outs, outFilename (.file ext) id on⟩
-  | .arr e k => fun id on v outs =>
-    if !hasFile e then v else
-    match v with
-    | .null => .null
-    | _ => pureArr (pureHandler E e) k v (outs ++ [outFilename (.arr e k) id on])
-  | .tmap e => fun id on v outs =>
-    if !hasFile e then v else
-    match v with
-    | .null => .null
-    | _ => pureMap (pureHandler E e) v (outs ++ [outFilename (.tmap e) id on])
-  | .struct ms => fun id on v outs =>
-    if !hasFileMs ms then v else
-    match v with
-    | .null => .null
-    | _ => pureStruct (pureMs E ms) v (outs ++ [outFilename (.struct ms) id on])
-def pureMs (E : Leaf → J) : List (String × String × Ty) → PureMembers
-  | [] => []
-  | (id, on, t) :: ms => (id, pureHandler E t id on) :: pureMs E ms
-end
-
-/-- `handleOuts` with the leaf calls answered by `E` -/
-def pureOuts (E : Leaf → J) (params : List (String × String × Ty)) (outs : List (String × J)) (top : Path) :
-    List (String × J) :=
-  match params with
-  | [] => []
-  | (id, on, ty) :: rest =>
-    match lookupLast outs id with
-    | none => pureOuts E rest outs top
-    | some v => (id, pureHandler E ty id on v top) :: pureOuts E rest outs top
-
 /-! ## the oracle is right along a run -/
-
-/-- every leaf call of the run `ls` from `fs` returns what `E` says -/
-def Good (ps : Path) (E : Leaf → J) : List Leaf → FS → Prop
-  | [], _ => True
-  | l :: ls, fs => (moveOutFile ps l.outs l.name l.v fs).1 = E l ∧ Good ps E ls (runLeaf ps fs l)
 
 theorem good_append {ps : Path} {E : Leaf → J} (a b : List Leaf) (fs : FS) :
     Good ps E (a ++ b) fs ↔ Good ps E a fs ∧ Good ps E b (runLeaves ps a fs) := by
@@ -319,19 +232,6 @@ theorem handleOuts_val (ps : Path) (E : Leaf → J) (params : List (String × St
       rw [handler_val ps E ty id on v top fs hg.1, handler_run, ih _ hg.2]
 
 /-! ## the oracle of a `Clean` situation -/
-
-/-- what a leaf's value becomes when nothing interferes: judged in `fs0` -/
-def expectVal (fs0 : FS) (l : Leaf) : J :=
-  match l.v with
-  | .str s =>
-    if s = "" then .null else
-    match parsePath s with
-    | none => .null
-    | some p =>
-      match fs0.get p with
-      | none => .null
-      | some _ => .str (renderPath l.dest)
-  | v => v
 
 theorem clean_good (ps top : Path) (fs0 : FS) (ls : List Leaf) (fs : FS) (hc : Clean ps top fs ls)
     (hag : ∀ l ∈ ls, ∀ p, l.src = some p → fs.get p = fs0.get p) :
